@@ -114,3 +114,96 @@ def check_c19(run: Run, prog: Program) -> None:
     run.floor("dispatch table entries", n4, 20)
     run.stats.update({"super_sites": n1, "direct_operator_returns": n2, "presence": n3, "table_entries": n4,
                       "dispatch_arms": n5, "index_set_constructions": n6})
+
+
+# ================================================================================================ C04
+@prop("C04")
+def check_c04(run: Run, prog: Program) -> None:
+    from geolint import kinds
+
+    run.title = "Collections compute element by element what single objects compute"
+    run.clause = (
+        "decides the structural part of the second sentence of C04 (indexing/iterating a collection yields the element class "
+        "with its attributes intact) plus complete initialisation of masked np.empty buffers in the vectorised branches: "
+        "(K1) element-class registry, (K2) __getitem__/__iter__ re-wrap into the family and carry constructor-parameter "
+        "attributes, (K5) np.empty buffers fully written. NOT decided: equality of vectorised and scalar code paths, einsum "
+        "alignment of free indices (numeric)."
+    )
+    n1 = kinds.rule_K1(run, prog)
+    n2 = kinds.rule_K2(run, prog)
+    n5 = kinds.rule_K5(run, prog)
+    run.floor("concrete collection classes", n1, 5)
+    run.floor("element access obligations", n2, 5)
+    run.stats.update({"collection_classes": n1, "element_access": n2, "empty_buffers": n5})
+
+
+# ================================================================================================ C14
+@prop("C14")
+def check_c14(run: Run, prog: Program) -> None:
+    from geolint import kinds
+
+    run.title = "Quadric-line intersection, tangents, polars and duals are mutually consistent"
+    run.clause = (
+        "decides one clause: 'dual ... works for every quadric class' - every reconstruction type(self)(...) in a method of "
+        "the quadric family (dual, and through the call graph is_tangent) is accepted by the constructor of every concrete "
+        "subclass that inherits the method. NOT decided: all numeric clauses (intersection points, tangency, pole/polar "
+        "reciprocity, involution)."
+    )
+    quad = prog.cls("QuadricTensor")
+    n = kinds.rule_K3(run, prog, family=quad)
+    nq = len(prog.concrete_subclasses(quad))
+    run.floor("concrete quadric classes", nq, 5)
+    dual = prog.lookup(quad, "dual")
+    if dual is None:
+        run.error("public anchor QuadricTensor.dual not found")
+    run.stats.update({"reconstruction_obligations": n, "concrete_quadric_classes": nq})
+    if dual is not None and n == 0:
+        run.add("E6.K3", dual.short, "reconstruction", UNDECIDED,
+                "dual no longer reconstructs through type(self) / a class-valued local; its result class is not judged", dual.loc)
+    # is_tangent inherits the verdict of dual through the call graph: listed for the reader
+    it = prog.lookup(quad, "is_tangent")
+    if it is not None and dual is not None:
+        uses = any(isinstance(x, __import__("ast").Attribute) and x.attr == "dual" for x in __import__("ast").walk(it.node))
+        run.stats["is_tangent_uses_dual"] = uses
+
+
+# ================================================================================================ C06
+@prop("C06")
+def check_c06(run: Run, prog: Program) -> None:
+    from geolint import kinds
+
+    run.title = "Transformations act as a group on every kind of object"
+    run.clause = (
+        "decides the kind and cache clauses only: (K4) the result of every __apply__ is of the receiver's kind and the cached "
+        "supporting line/plane of polytopes is recomputed on the result for every concrete class by MRO; (K3) the "
+        "reconstructions in inverse/__pow__ are accepted by every inheriting transformation class. NOT decided: associativity, "
+        "inverse, powers, identity (numeric) - a wrong matrix product order is invisible to this check."
+    )
+    n4 = kinds.rule_K4(run, prog)
+    n3 = kinds.rule_K3(run, prog, family=prog.cls("TransformationTensor"))
+    run.floor("__apply__ implementations and derived caches", n4, 6)
+    run.stats.update({"apply_obligations": n4, "reconstruction_obligations": n3})
+
+
+# ================================================================================================ C09
+C09_DOCUMENTED = [
+    ("PointTensor", "PointTensor"), ("PointTensor", "LineTensor"), ("PointTensor", "PlaneTensor"),
+    ("PointTensor", "SegmentTensor"), ("PointTensor", "PolygonTensor"), ("PointTensor", "Polyhedron"),
+    ("PlaneTensor", "LineTensor"), ("PlaneTensor", "PlaneTensor"),
+]
+
+
+@prop("C09")
+def check_c09(run: Run, prog: Program) -> None:
+    from geolint import dispatch
+
+    run.title = "dist and angle equal the Cartesian distance and angle"
+    run.clause = (
+        "decides the kind-dispatch clauses of dist: (E9.1) the reduction over all ordered pairs of concrete kinds terminates, "
+        "(E9.3) every pair C09 documents reaches a base formula in both argument orders, (E9.5) the == short-cut cannot fire "
+        "across kinds. NOT decided: the values of the formulas, branch cuts "
+        "of log/sqrt, isometry invariance."
+    )
+    fn = prog.func("dist")
+    n = dispatch.analyse(run, prog, fn, C09_DOCUMENTED)
+    run.floor("ordered kind pairs evaluated", n, 100)
